@@ -354,3 +354,14 @@ Proof.
   apply IH; try assumption.
   intros k. destruct (memk String.eqb k (pair_keys kof its)); [apply Hu|reflexivity].
 Qed.
+
+(* the same from raw directory content: a file whose bytes are not valid UTF-8 is left untouched *)
+Theorem undecodable_untouched outdir (dir : string -> option string) fresh fn lines bytes :
+  names_ok (keys fresh) -> slookup fn fresh = Some lines -> dir fn = Some bytes -> utf8_valid bytes = false ->
+  let r := regen_dir outdir dir fresh in
+  slookup fn (fst r) = None /\ slookup (lost_name fn) (fst r) = None /\ ~ In fn (snd r).
+Proof.
+  intros Hn Hl Hd Hu. unfold regen_dir.
+  apply (unreadable_untouched outdir (fun fn0 => classify (dir fn0)) fresh fn lines Hn Hl).
+  unfold classify. rewrite Hd, Hu. reflexivity.
+Qed.
